@@ -85,7 +85,7 @@ class C10(Check):
     driver = "drv_c10"
     theorems = ["Pox.C10.ctl_terminates", "Pox.C10.sw_terminates", "Pox.C10.ctl_unguarded_spins", "Pox.C10.sw_contained",
                 "Pox.C10.siblings_untouched", "Pox.C10.ctl_no_overread", "Pox.C10.sw_no_overread",
-                "Pox.C10.ctl_disconnect_stops", "Pox.C10.ctl_no_disconnect_same",
+                "Pox.C10.ctl_disconnect_stops", "Pox.C10.ctl_no_disconnect_same", "Pox.C10.ctl_disconnect_persists",
                 "Pox.C10.sw_trace_is_feed", "Pox.C10.sw_answered_or_closed", "Pox.C10.sw_replies_only_for_skips"]
     anchors = [("pox/openflow/of_01.py", "Connection.read"), ("pox/openflow/of_01.py", "OpenFlow_01_Task.run"),
                ("pox/datapaths/switch.py", "OFConnection.read"), ("pox/datapaths/switch.py", "OFConnection._error_handler"),
@@ -152,6 +152,24 @@ class C10(Check):
                     for v in (0, 1, 4, 7, 8, 9, 12, 16, 0xffff):
                         b = bytearray(m); b[off] = v >> 8; b[off + 1] = v & 0xff
                         cases.append(self._mk(rng, side, bytes(b)))
+            # a length (header, actions_len, or an embedded one) OVERSTATED by 1..3 while the read ends 0..4 bytes into the
+            # next message: a decoder that trusts the length then reads a 4-byte sub-header from fewer than 4 bytes
+            of = self.of
+            acts = [of.ofp_action_output(port=1), of.ofp_action_vlan_vid(vlan_vid=5)]
+            lists = [(of.ofp_flow_mod(xid=1, match=of.ofp_match(in_port=1), actions=acts).pack(), [2]),
+                     (of.ofp_packet_out(xid=2, in_port=1, actions=acts, data=b"").pack(), [2, 14]),
+                     (of.ofp_packet_out(xid=2, in_port=1, actions=acts, data=b"\x01\x02\x03").pack(), [14]),
+                     (of.ofp_stats_reply(xid=3, type=of.OFPST_FLOW, body=[of.ofp_flow_stats(match=of.ofp_match(), actions=acts)]).pack(), [2, 12]),
+                     (of.ofp_queue_get_config_reply(xid=4, port=1, queues=[of.ofp_packet_queue(queue_id=1, properties=[of.ofp_queue_prop_min_rate(rate=5)])]).pack(), [2, 20])]
+            for m, offs in lists:
+                for off in offs:
+                    for d in (1, 2, 3):
+                        for k in (0, 1, 2, 3, 4):
+                            b = bytearray(m); v = ((b[off] << 8) | b[off + 1]) + d
+                            b[off] = v >> 8; b[off + 1] = v & 0xff
+                            c = self._mk(rng, side, bytes(b), npre=1, npost=2)
+                            c["cuts"] = [sum(len(x) // 2 for x in c["pre"]) + len(b) + k]
+                            cases.append(c)
             # controller side: the handler of the k-th valid message disconnects the connection (a failed send, a
             # failed handshake): nothing after it may be dispatched, in this read or later ones
             if side == "ctl":
